@@ -86,16 +86,17 @@ def MComps.okAll (P : EncState → Prop) : List MComp → Prop
   | [] => True
   | m :: ms => m.c.OkM m.mid P ∧ MComps.okAll P ms
 
-/-- parameters that need `is_end_of_pdu` cleared do not occur in the last place -/
-def MComps.midNotLast : List MComp → Prop
-  | [] => True
-  | [m] => m.mid = false
-  | _ :: m2 :: rest => MComps.midNotLast (m2 :: rest)
+/-- the flag of the last parameter: a structure ending with a parameter that needs `is_end_of_pdu` cleared needs it cleared -/
+def MComps.lastMid : List MComp → Bool
+  | [] => false
+  | [m] => m.mid
+  | _ :: m2 :: rest => MComps.lastMid (m2 :: rest)
 
-theorem MComps.midNotLast_tail (m : MComp) (ms : List MComp) (h : MComps.midNotLast (m :: ms)) : MComps.midNotLast ms := by
-  cases ms with
-  | nil => trivial
-  | cons m2 rest => exact h
+/-- parameters that need `is_end_of_pdu` cleared do not occur in the last place -/
+def MComps.midNotLast (ms : List MComp) : Prop := MComps.lastMid ms = false
+
+theorem MComps.lastMid_tail (m : MComp) (m2 : MComp) (rest : List MComp) :
+    MComps.lastMid (m :: m2 :: rest) = MComps.lastMid (m2 :: rest) := rfl
 
 theorem MComps.okAll_of_forall (P : EncState → Prop) : (ms : List MComp) → (∀ m ∈ ms, m.c.OkM m.mid P) → MComps.okAll P ms
   | [], _ => trivial
@@ -126,7 +127,7 @@ theorem MComps.okAll_ofComps (P : EncState → Prop) : (gs : List Comp) → Comp
   | _ :: gs, h => ⟨h.1.toM false P, MComps.okAll_ofComps P gs h.2⟩
 
 theorem MComps.midNotLast_ofComps : (gs : List Comp) → MComps.midNotLast (MComps.ofComps gs)
-  | [] => trivial
+  | [] => rfl
   | [_] => rfl
   | _ :: g2 :: rest => MComps.midNotLast_ofComps (g2 :: rest)
 
@@ -164,18 +165,19 @@ theorem MComps.toParams_notKey {P : EncState → Prop} (ms : List MComp) (hok : 
 
 /-- the first encoding loop over a list of components some of which need the flag cleared: all but the last parameter are
     encoded with `is_end_of_pdu` cleared (the state the loop is started from has it cleared) -/
-theorem MComps.encode_eq {P : EncState → Prop} (hP : ModelInv P) : (ms : List MComp) → MComps.okAll P ms → Comps.eopLast (MComps.cs ms) → MComps.midNotLast ms →
+theorem MComps.encode_eq {P : EncState → Prop} (hP : ModelInv P) : (ms : List MComp) → MComps.okAll P ms → Comps.eopLast (MComps.cs ms) →
     ∀ (values : List (String × PVal)),
     (∀ g ∈ MComps.cs ms, lookupV g.name values = g.sup ∧ (g.param.kind.required = true → (lookup g.name values).isNone = false)) →
     ∀ (fuel : Nat), Comps.need (MComps.cs ms) ≤ fuel → ∀ (eop : Bool), (Comps.anyEop (MComps.cs ms) = true → eop = true) →
+    (MComps.lastMid ms = true → eop = false) →
     ∀ (s : EncState), s.isEndOfPdu = false → P s →
     ∃ s', encodeParams eop values fuel (Comps.toParams (MComps.cs ms)) s true = .ok ((), s') ∧
       SameCore s' ((Comps.pair (MComps.cs ms)).enc s) ∧ (s.cursorBit = 0 → s'.cursorBit = 0)
-  | [], _, _, _, values, _, fuel, hf, eop, _, s, _, _ => by
+  | [], _, _, values, _, fuel, hf, eop, _, _, s, _, _ => by
     simp only [MComps.cs_nil, Comps.need] at hf
     obtain ⟨f, rfl⟩ : ∃ f, fuel = f + 1 := ⟨fuel - 1, by omega⟩
     exact ⟨s, by simp [MComps.cs_nil, Comps.toParams, encodeParams, pure, run_pure], SameCore.refl _, id⟩
-  | m :: ms, hok, hlast, hmid, values, hlook, fuel, hf, eop, heop, s, hs0, hst => by
+  | m :: ms, hok, hlast, values, hlook, fuel, hf, eop, heop, hmid, s, hs0, hst => by
     simp only [MComps.okAll] at hok
     simp only [MComps.cs_cons, Comps.need] at hf
     obtain ⟨f, rfl⟩ : ∃ f, fuel = f + 1 := ⟨fuel - 1, by omega⟩
@@ -194,8 +196,8 @@ theorem MComps.encode_eq {P : EncState → Prop} (hP : ModelInv P) : (ms : List 
       intro hm
       cases ms with
       | nil =>
-        have : m.mid = false := hmid
-        rw [this] at hm; cases hm
+        have : eop = false := hmid hm
+        simp [this]
       | cons m2 rest => exact hs0
     let sm : EncState := if ms.isEmpty then { s with isEndOfPdu := eop } else s
     have hsm : SameCore sm s := by
@@ -231,10 +233,9 @@ theorem MComps.encode_eq {P : EncState → Prop} (hP : ModelInv P) : (ms : List 
     | cons m2 rest =>
       have hs1 : s1.isEndOfPdu = false := encodeParam_keeps_eop_false f _ _ s true s1 hstep hs0
       have hs1t : P s1 := hP.keeps f _ _ s true s1 hstep hst
-      obtain ⟨s2, hrest, hc2, hcb2⟩ := MComps.encode_eq hP (m2 :: rest) hok.2 (Comps.eopLast_tail m.c _ hlast)
-        (MComps.midNotLast_tail m _ hmid) values
+      obtain ⟨s2, hrest, hc2, hcb2⟩ := MComps.encode_eq hP (m2 :: rest) hok.2 (Comps.eopLast_tail m.c _ hlast) values
         (fun u hu => hlook u (by rw [MComps.cs_cons]; exact List.mem_cons_of_mem _ hu)) f (by omega) eop
-        (fun h => heop (by simp only [MComps.cs_cons, Comps.anyEop, List.any_cons] at h ⊢; simp [h])) s1 hs1 hs1t
+        (fun h => heop (by simp only [MComps.cs_cons, Comps.anyEop, List.any_cons] at h ⊢; simp [h])) hmid s1 hs1 hs1t
       refine ⟨s2, ?_, ?_, fun _ => hcb2 hcb1⟩
       · simp only [MComps.cs_cons, Comps.toParams, List.map_cons]
         have hstep2 : encodeParam f m.c.param m.c.sup s true = .ok ((), s1) := hstep'
@@ -326,16 +327,17 @@ theorem MComps.decPre_intro {P : EncState → Prop} : (ms : List MComp) → MCom
 
 /-- the encoder refinement of a structure over `ms`, from states with the triggering request the parameters are described for -/
 theorem DComp.structM_encode_eq {P : EncState → Prop} (hP : ModelInv P) (ms : List MComp) (hok : MComps.okAll P ms)
-    (hn : Comps.namesOk (MComps.cs ms)) (hlast : Comps.eopLast (MComps.cs ms)) (hmid : MComps.midNotLast ms)
+    (hn : Comps.namesOk (MComps.cs ms)) (hlast : Comps.eopLast (MComps.cs ms))
     (fuel : Nat) (hf : (DComp.struct (MComps.cs ms)).need ≤ fuel) (s : EncState) (hcb : s.cursorBit = 0)
-    (heop : (DComp.struct (MComps.cs ms)).eopOnly = true → s.isEndOfPdu = true) (hst : P s) :
+    (heop : (DComp.struct (MComps.cs ms)).eopOnly = true → s.isEndOfPdu = true)
+    (hmid : MComps.lastMid ms = true → s.isEndOfPdu = false) (hst : P s) :
     ∃ s', encodeDop fuel (DComp.struct (MComps.cs ms)).dop (DComp.struct (MComps.cs ms)).sup s true = .ok ((), s') ∧
       SameCore s' ((DComp.struct (MComps.cs ms)).pair.enc s) ∧ s'.cursorBit = 0 := by
   obtain ⟨f, rfl⟩ : ∃ f, fuel = f + 1 + 1 := ⟨fuel - 2, by simp only [DComp.struct] at hf; omega⟩
   have hf' : Comps.need (MComps.cs ms) ≤ f := by simp only [DComp.struct] at hf; omega
   let sIn : EncState := { s with origin := s.cursorByte, isEndOfPdu := false, cursorBit := 0 }
-  obtain ⟨sp, hrun, hcore, hspcb⟩ := MComps.encode_eq hP ms hok hlast hmid (Comps.values (MComps.cs ms))
-    (fun g hg => MComps.lookupV_values ms hok hn g hg) f hf' s.isEndOfPdu heop sIn rfl (hP.ext s sIn rfl rfl rfl hst)
+  obtain ⟨sp, hrun, hcore, hspcb⟩ := MComps.encode_eq hP ms hok hlast (Comps.values (MComps.cs ms))
+    (fun g hg => MComps.lookupV_values ms hok hn g hg) f hf' s.isEndOfPdu heop hmid sIn rfl (hP.ext s sIn rfl rfl rfl hst)
   obtain ⟨e, rfl⟩ : ∃ e, f = (MComps.cs ms).length + 1 + e :=
     ⟨f - ((MComps.cs ms).length + 1), by have := Comps.need_ge (MComps.cs ms); omega⟩
   have hlen : (Comps.toParams (MComps.cs ms)).length = (MComps.cs ms).length := by simp [Comps.toParams]
@@ -382,21 +384,30 @@ theorem DComp.structM_decode_eq {P : EncState → Prop} (ms : List MComp) (hok :
   rw [hrun]
   rfl
 
-/-- **closure under STRUCTURE with `mid` parameters**: the structure is an ordinary component (from every encoder state),
-    provided the parameters are described for every state (all kinds but MATCHING-REQUEST-PARAM are) -/
-theorem DComp.structM_ok (ms : List MComp) (hok : MComps.okAll (fun _ => True) ms) (hn : Comps.namesOk (MComps.cs ms))
-    (hlast : Comps.eopLast (MComps.cs ms)) (hmid : MComps.midNotLast ms) : (DComp.struct (MComps.cs ms)).Ok :=
+/-- **closure under STRUCTURE with `mid` parameters**: a data object that needs `is_end_of_pdu` cleared iff its LAST parameter
+    does (the flag of the enclosing composite reaches the last parameter only); the parameters must be described for every
+    state (all kinds but MATCHING-REQUEST-PARAM are) -/
+theorem DComp.structM_okM (ms : List MComp) (hok : MComps.okAll (fun _ => True) ms) (hn : Comps.namesOk (MComps.cs ms))
+    (hlast : Comps.eopLast (MComps.cs ms)) : (DComp.struct (MComps.cs ms)).OkM (MComps.lastMid ms) :=
   { good := DComp.structM_good ms hok
     sup_ne_none := by simp [DComp.struct]
     originFree := (OriginFree.inOrigin (Comps.pair (MComps.cs ms))).map _
     dec_originFree := fun _ _ => rfl
     fits_originFree := fun _ _ => rfl
-    encode_eq := fun fuel hf s hcb heop => DComp.structM_encode_eq ModelInv.trivial ms hok hn hlast hmid fuel hf s hcb heop True.intro
+    encode_eq := fun fuel hf s hcb heop hmid =>
+      DComp.structM_encode_eq ModelInv.trivial ms hok hn hlast fuel hf s hcb heop hmid True.intro
     enc_cursor := DComp.structM_enc_cursor ms hok
     dec_cursorBit := fun d h => MComps.dec_cursorBit ms hok { d with origin := d.cursorByte } h
     dec_msg := fun d => MComps.dec_msg ms hok { d with origin := d.cursorByte }
     dec_origin := fun _ => rfl
     decode_eq := DComp.structM_decode_eq ms hok }
+
+/-- … an ordinary component (from every encoder state) when no `mid` parameter is last -/
+theorem DComp.structM_ok (ms : List MComp) (hok : MComps.okAll (fun _ => True) ms) (hn : Comps.namesOk (MComps.cs ms))
+    (hlast : Comps.eopLast (MComps.cs ms)) (hmid : MComps.midNotLast ms) : (DComp.struct (MComps.cs ms)).Ok := by
+  have h := DComp.structM_okM ms hok hn hlast
+  rw [show MComps.lastMid ms = false from hmid] at h
+  exact h.toOk
 
 theorem DComp.structM_endOk {P : EncState → Prop} (ms : List MComp) (hok : MComps.okAll P ms) (hend : Comps.endOkAll (MComps.cs ms))
     (hlast : Comps.eopLast (MComps.cs ms)) : (DComp.struct (MComps.cs ms)).EndOk where
@@ -406,6 +417,52 @@ theorem DComp.structM_endOk {P : EncState → Prop} (ms : List MComp) (hok : MCo
     intro _
     exact h
   trivial := fun h d => Comps.decPre_of_noEop _ hend h _
+
+/-- a VALUE parameter typed by a data object that needs the flag cleared needs the flag cleared -/
+theorem Comp.ofValueM_ok (name : String) (bp : Option Nat) (c : DComp) (mid : Bool) (hc : c.OkM mid) (P : EncState → Prop) :
+    (Comp.ofValue name bp c).OkM mid P where
+  good := hc.good.atPos bp
+  notKey := rfl
+  supplied := fun _ => rfl
+  sup_ne_none := by
+    have := hc.sup_ne_none
+    simpa [Comp.ofValue] using this
+  encode_eq := by
+    intro fuel hf s heop hmid _
+    obtain ⟨f, rfl⟩ : ∃ f, fuel = f + 1 := ⟨fuel - 1, by simp only [Comp.ofValue] at hf; omega⟩
+    obtain ⟨s1, hrun, hcore, _⟩ := hc.encode_eq f (by simp only [Comp.ofValue] at hf; omega)
+      { s with cursorByte := posOf bp s.origin s.cursorByte, cursorBit := 0 } rfl heop hmid
+    refine ⟨{ s1 with cursorBit := 0 }, ?_, ?_⟩
+    · simp only [Comp.ofValue]
+      rw [encodeParam_value_step]
+      simp only [Option.getD_none]
+      rw [hrun]
+    · have hin : SameCore { s with cursorByte := posOf bp s.origin s.cursorByte, cursorBit := 0 }
+          { s with cursorByte := posOf bp s.origin s.cursorByte } := ⟨rfl, rfl, rfl, rfl, rfl⟩
+      have h2 := hcore.trans (hc.good.core _ _ hin)
+      exact ⟨h2.1, h2.2.1, h2.2.2.1, h2.2.2.2.1, h2.2.2.2.2⟩
+  enc_cursor := fun s => hc.enc_cursor { s with cursorByte := posOf bp s.origin s.cursorByte }
+  cur_shift := by
+    intro org c p
+    simp only [Comp.ofValue, posOf_shift]
+    omega
+  dec_cursorBit := fun d h => hc.dec_cursorBit { d with cursorByte := posOf bp d.origin d.cursorByte } h
+  dec_msg := fun d => hc.dec_msg { d with cursorByte := posOf bp d.origin d.cursorByte }
+  dec_origin := fun d => hc.dec_origin { d with cursorByte := posOf bp d.origin d.cursorByte }
+  decode_eq := by
+    intro fuel hf d hcb hfit hpre
+    obtain ⟨f, rfl⟩ : ∃ f, fuel = f + 1 := ⟨fuel - 1, by simp only [Comp.ofValue] at hf; omega⟩
+    have hd1 : ({ d with cursorByte := posOf bp d.origin d.cursorByte, cursorBit := 0 } : DecState) =
+        { d with cursorByte := posOf bp d.origin d.cursorByte } := by rw [← hcb]
+    have hrun := hc.decode_eq f (by simp only [Comp.ofValue] at hf; omega)
+      { d with cursorByte := posOf bp d.origin d.cursorByte } hcb hfit hpre
+    have hcb2 := hc.dec_cursorBit { d with cursorByte := posOf bp d.origin d.cursorByte } hcb
+    simp only [Comp.ofValue]
+    rw [decodeParam_value_step]
+    simp only [Option.getD_none]
+    rw [hd1, hrun]
+    simp only [Pair.atPos]
+    rw [DecState.cursorBit_eta _ hcb2]
 
 /-! ### the leaves -/
 
